@@ -246,8 +246,8 @@ func checkConc(t ev.TB, c ConcCase, replay bool) {
 var concSizes = []int{0, 1, 100, 4096, 10000, 300000}
 
 func genConc(t *rapid.T, impl string) ConcCase {
-	l3 := ev.SwitchOn(swL3) && impl == "dir"
-	l2 := ev.SwitchOn(swL2) && impl == "mem"
+	l3 := models.KnownSwitch(swL3) && impl == "dir"
+	l2 := models.KnownSwitch(swL2) && impl == "mem"
 	c := ConcCase{Rounds: ev.EnvInt("VERIF_ROUNDS", 3)}
 	c.Prog.Impl = impl
 	dirs := []string{"d", "e", "f"}
